@@ -471,7 +471,7 @@ class DsEngine(Engine):
     level = "exploration"
     tiers = {
         "quick": {"runs": 600_000, "wall_cap_s": 240, "samples": 4},
-        "thorough": {"runs": 40_000_000, "wall_cap_s": 1700, "samples": 4},
+        "thorough": {"runs": 12_000_000, "wall_cap_s": 1700, "samples": 4},
     }
     shrink_order = ("hist", "cfg")
 
